@@ -67,7 +67,8 @@ SOURCES = ('kw', 'tvar', 'client', 'mapping', 'ckw', 'cmap')
 FORMS = ('var', 'call', 'callexpr', 'varexprcall', 'entity', 'ifvar',
          'exprlambda', 'exprcomp', 'exprgen', 'renderexpr', 'subscriptexpr',
          'getitemexpr', 'getitem0expr')
-BINDERS = ('in', 'inb', 'with', 'withmap', 'withonly', 'let', 'letn', 'lete',
+BINDERS = ('in', 'inb', 'with', 'withmap', 'withonly', 'let', 'letn', 'letn2',
+           'lete',
            'if', 'elif', 'try', 'sub', 'subcl')
 SYNTAXES = ('dtml', 'ssi', 'epfs')
 
@@ -475,6 +476,12 @@ def build_scope(case):
             ns['letsrc%d' % k] = ['lit', marker]
             node = ['let', [['other%d' % k, E('1 + 1')],
                             [name, N('letsrc%d' % k)]], inner]
+        elif kind == 'letn2':
+            # the name-form binding first, two more behind it
+            ns['letsrc%d' % k] = ['lit', marker]
+            node = ['let', [[name, N('letsrc%d' % k)],
+                            ['other%d' % k, N('letsrc%d' % k)],
+                            ['third%d' % k, E('other%d' % k)]], inner]
         elif kind == 'if':
             # caches the value of a callable under its name
             ns['c%d' % k] = ['probe', 'c%d' % k, ['lit', marker]]
